@@ -14,7 +14,20 @@ Oracles (property itself, on the implementation's output):
    and node ids), `__OTHER__` present exactly when requested, `edges(False)` == known-partner part of `edges(True)`;
  * `group_matrix(method='SUM')` conserves the total (of the kept sub-matrix when `drop_ungrouped`).
 Outside `PreUnique` (one connector id presynaptic on several rows; navis warns and keeps the last) only the
-model correspondence and the view-agreement oracles are evaluated (see Props/C20 `edges_not_preunique_witness`)."""
+model correspondence and the view-agreement oracles are evaluated (see Props/C20 `edges_not_preunique_witness`).
+
+Second layer (extension):
+ * the three objects navis returns are handed — together with navis' own edge list — to the Lean checker `viewsOKB`
+   (`c20.views`, proved sound and complete in Props/C20 `viewsOKB_sound`, `checked_views_agree`);
+ * `type` cells of every Python class (int / numpy ints / float / bool / str / None / NaN, homogeneous or mixed object
+   columns) against the model's `typeCode` (Python `==`), NaN node ids, int / None / duplicated neuron names,
+   TreeNeuron / MeshNeuron / Dotprops carriers, aliased / shuffled / extra connector-table columns, connector-id dtypes;
+ * construction histories: list / tuple / generator / NeuronList / two `add_neurons` batches / `add_neuron` one by one
+   with the edge stream compared with the incremental model `buildN` (`c20.inc`) after *every* step, the same neuron
+   object added twice;
+ * `network2nx(to_adjacency(), threshold)` against the model `n2nx` (`c20.n2nx`) and against the stream counts;
+ * a heavy pair (hundreds of synapses between two neurons: cell width of the matrix);
+ * `group_matrix` on integer-labelled frames with int / str dict keys, members given as list / tuple / set / ndarray."""
 import itertools, warnings, random as _random
 from fractions import Fraction
 from collections import Counter
@@ -36,19 +49,103 @@ N_NODES = 4
 # ---------------------------------------------------------------------------------------------
 # building the real objects
 # ---------------------------------------------------------------------------------------------
-def make_neuron(name, conns, idx):
+_VERTS = np.array([[0, 0, 0], [1, 0, 0], [0, 1, 0], [0, 0, 1]], dtype=float)
+_FACES = np.array([[0, 1, 2], [0, 1, 3], [0, 2, 3], [1, 2, 3]])
+ALIASES = {'connector_id': ['connector_id', 'id'], 'node_id': ['node_id', 'rowId', 'node', 'treenode_id'],
+           'type': ['type', 'relation', 'label', 'prepost']}
+
+
+def type_value(tok):
+    """type token -> the Python object put into the `type` column."""
+    if isinstance(tok, int):
+        return tok
+    if tok == 'nan':
+        return float('nan')
+    if tok == 'none':
+        return None
+    if tok == 'bT':
+        return True
+    if tok == 'bF':
+        return False
+    if tok.startswith('s'):
+        return tok[1:]
+    if tok.startswith('i'):
+        return np.int64(int(tok[1:]))
+    if tok.startswith('f'):
+        nd = tok[1:].split('_')
+        return float(Fraction(int(nd[0]), int(nd[1]) if len(nd) > 1 else 1))
+    raise ValueError(tok)
+
+
+def type_code(tok):
+    """0 / 1 / 2(ignored) by *Python's own* `==` on the materialised value (independent of the Lean `typeCode`)."""
+    v = type_value(tok)
+    return 1 if v == 1 else (0 if v == 0 else 2)
+
+
+def name_py(tok, opts):
+    if tok == 'None':
+        return None
+    if opts.get('int_names') and tok.isdigit():
+        return int(tok)
+    return tok
+
+
+def conn_table(conns, opts, r):
+    cid_dt = opts.get('cid_dtype', 'int64')
+    cid = np.array([int(x[0]) for x in conns], dtype=np.int64).astype(cid_dt)
+    nodes = [x[1] for x in conns]
+    if any(n is None for n in nodes):
+        nid = np.array([np.nan if n is None else float(n) for n in nodes], dtype=float)
+    else:
+        nid = np.array([int(n) for n in nodes], dtype=np.int64)
+    tvals = [type_value(x[2]) for x in conns]
+    if all(isinstance(x[2], int) for x in conns):
+        typ = pd.Series(np.array(tvals, dtype=np.int64).astype(opts.get('type_dtype', 'int64')))
+    elif opts.get('type_object'):
+        typ = pd.Series(tvals, dtype=object)
+    else:
+        typ = pd.Series(tvals)                       # pandas infers float64 / bool / str / object
+    al = opts.get('aliases', {})
+    cols = {al.get('connector_id', 'connector_id'): cid}
+    if not opts.get('no_node_id'):
+        cols[al.get('node_id', 'node_id')] = nid
+    cols[al.get('type', 'type')] = typ.values if len(typ) else np.array([], dtype=np.int64)
+    df = pd.DataFrame(cols)
+    xs = np.array([0.0 if n is None else float(n) for n in nodes], dtype=float)
+    df['x'] = xs
+    df['y'] = 0.0
+    df['z'] = 0.0
+    if opts.get('extra_cols'):
+        df['roi'] = 'LH'
+        df['confidence'] = 0.5
+    if opts.get('shuffle_cols'):
+        order = list(df.columns)
+        _random.Random(len(conns) * 7 + 1).shuffle(order)
+        df = df[order]
+    if opts.get('odd_index') and len(df):
+        df.index = [3 * i + 10 for i in range(len(df))][::-1]
+    return df
+
+
+def make_neuron(n, idx, opts):
     m = N_NODES
-    # node ids 0..m: connectors may sit on node id 0 (0-based SWC style ids)
-    df = pd.DataFrame({'node_id': np.arange(0, m + 1), 'parent_id': [-1] + list(range(0, m)),
-                       'x': np.arange(m + 1, dtype=float), 'y': 0.0, 'z': 0.0, 'radius': 0.01})
-    n = navis.TreeNeuron(df, id=1000 + idx, name=name)
-    if conns is not None:
-        cid = np.array([int(r[0]) for r in conns], dtype=np.int64)
-        nid = np.array([int(r[1]) for r in conns], dtype=np.int64)
-        typ = np.array([int(r[2]) for r in conns], dtype=np.int64)
-        n.connectors = pd.DataFrame({'connector_id': cid, 'node_id': nid, 'type': typ,
-                                     'x': nid.astype(float), 'y': 0.0, 'z': 0.0})
-    return n
+    opts = dict(opts, **(n.get('nopts') or {}))
+    name = name_py(n['name'], opts)
+    nid = 1000 if opts.get('dup_ids') else 1000 + idx
+    kind = n.get('ntype', 'tree')
+    if kind == 'mesh':
+        x = navis.MeshNeuron((_VERTS, _FACES), id=nid, name=name)
+    elif kind == 'dotprops':
+        x = navis.Dotprops(_VERTS, k=None, vect=np.tile([1., 0, 0], (4, 1)), id=nid, name=name)
+    else:
+        # node ids 0..m: connectors may sit on node id 0 (0-based SWC style ids)
+        df = pd.DataFrame({'node_id': np.arange(0, m + 1), 'parent_id': [-1] + list(range(0, m)),
+                           'x': np.arange(m + 1, dtype=float), 'y': 0.0, 'z': 0.0, 'radius': 0.01})
+        x = navis.TreeNeuron(df, id=nid, name=name)
+    if n['conns'] is not None:
+        x.connectors = conn_table(n['conns'], opts, None)
+    return x
 
 
 def neurons_payload(neurons):
@@ -57,12 +154,14 @@ def neurons_payload(neurons):
         if n['conns'] is None:
             parts.append(f"{n['name']}=-")
         else:
-            parts.append(f"{n['name']}=" + ','.join(f'{r[0]}:{r[1]}:{r[2]}' for r in n['conns']))
+            parts.append(f"{n['name']}=" + ','.join(f'{r[0]}:{-1 if r[1] is None else r[1]}:{r[2]}' for r in n['conns']))
     return ';'.join(parts)
 
 
 def flat_rows(neurons):
-    return [(n['name'], int(r[0]), int(r[1]), int(r[2])) for n in neurons if n['conns'] is not None for r in n['conns']]
+    """(name, connector id, node (NaN -> -1), type code by Python equality)"""
+    return [(n['name'], int(r[0]), -1 if r[1] is None else int(r[1]), type_code(r[2]))
+            for n in neurons if n['conns'] is not None for r in n['conns']]
 
 
 def pre_unique(rows):
@@ -91,15 +190,25 @@ def spec_edges(rows, io):
 
 
 def _n(v):
-    """node / connector id token: None and pandas NA -> 'N'."""
+    """node / connector id token: None and pandas NA -> 'N' (unknown partner); a float NaN (a table row whose node id is
+    missing) -> '-1' (the integer the model is given for such a row)."""
     if v is None or v is pd.NA:
         return 'N'
     try:
         if pd.isna(v):
-            return 'N'
+            return '-1'
     except Exception:
         pass
     return str(int(v))
+
+
+def _nd(v, other_end):
+    """the same for cells of the digraph's connectors table, where `astype(UInt64)` turns both None and NaN into <NA>:
+    <NA> is the unknown partner iff that end of the edge is `__OTHER__`."""
+    t = _n(v)
+    if t == 'N' and not other_end:
+        return '-1'
+    return t
 
 
 def edge_tok(e):
@@ -121,21 +230,96 @@ def slist(s):
 # ---------------------------------------------------------------------------------------------
 # NeuronConnector cases
 # ---------------------------------------------------------------------------------------------
+def build_connector(objs, opts, on_step=None):
+    """Construct the NeuronConnector the way `opts['container']` says."""
+    mode = opts.get('container', 'list')
+    if mode == 'tuple':
+        return NeuronConnector(tuple(objs))
+    if mode == 'generator':
+        return NeuronConnector(o for o in objs)
+    if mode == 'neuronlist':
+        return NeuronConnector(navis.NeuronList(objs))
+    if mode == 'batches':
+        k = opts.get('split', len(objs) // 2)
+        return NeuronConnector(objs[:k]).add_neurons(objs[k:])
+    if mode == 'incremental':
+        nc = NeuronConnector()
+        for i, o in enumerate(objs):
+            r = nc.add_neuron(o)
+            if on_step is not None:
+                on_step(i, nc, r)
+        return nc
+    return NeuronConnector(objs)
+
+
 def case_conn(ctx, case):
     neurons = case['neurons']
+    opts = case.get('opts') or {}
     rows = flat_rows(neurons)
     pu = pre_unique(rows)
+    if opts.get('same_object_twice') and neurons:
+        neurons = neurons + [neurons[0]]          # the very same neuron object is added a second time
+        rows = flat_rows(neurons)
+        pu = pre_unique(rows)
+    ctx.count('container', opts.get('container', 'list'))
+    for k in ('int_names', 'dup_ids', 'extra_cols', 'shuffle_cols', 'odd_index', 'type_object', 'same_object_twice'):
+        if opts.get(k):
+            ctx.count('table_options', k)
+    no_node = any((n.get('nopts') or {}).get('no_node_id') and n['conns'] for n in neurons)
+    for n in neurons:
+        for k, v in (n.get('nopts') or {}).items():
+            ctx.count('table_options', k if k != 'cid_dtype' else f'cid_dtype={v}')
+    for n in neurons:
+        ctx.count('neuron_type', n.get('ntype', 'tree'))
+    for t in {('int' if isinstance(r[2], int) else r[2][0] if r[2] not in ('nan', 'none') else r[2])
+              for n in neurons if n['conns'] for r in n['conns']}:
+        ctx.count('type_class', t)
+    if any(r[1] is None for n in neurons if n['conns'] for r in n['conns']):
+        ctx.count('table_options', 'nan_node_id')
+
+    def on_step(i, nc, ret):
+        # after every add_neuron: the edge stream is that of the incremental model on the prefix
+        ctx.oracle(ret is nc, 'add_neuron does not return the connector itself', case)
+        pre = neurons[:i + 1]
+        for io in (True, False):
+            m = parse_kv(ctx.ask(f'c20.inc {1 if io else 0} | {neurons_payload(pre)}'))
+            ctx.corr(sorted(edge_tok(tuple(e)) for e in nc.edges(io)), slist(m['edges']),
+                     f'edges(include_other={io}) after add_neuron #{i + 1} vs incremental model', case)
+            ctx.corr(sorted(str(k) for k in nc.neurons), sorted(t for t in m['names'].split(',') if t),
+                     f'neuron dict keys after add_neuron #{i + 1} vs incremental model', case)
+            if pre_unique(flat_rows(pre)):
+                want = sorted(edge_tok(e) for e in spec_edges(flat_rows(pre), io))
+                got = sorted(edge_tok(tuple(e)) for e in nc.edges(io))
+                ctx.oracle(got == want, f'after add_neuron #{i + 1}: edges(include_other={io}) is not the join of the tables '
+                                        f'added so far (stale state?): got {got[:8]}, definition gives {want[:8]}', case)
+
     try:
-        objs = [make_neuron(n['name'], n['conns'], i) for i, n in enumerate(neurons)]
-        nc = NeuronConnector(objs)
+        objs = [make_neuron(n, i, opts) for i, n in enumerate(neurons)]
+        if opts.get('same_object_twice') and objs:
+            objs[-1] = objs[0]
+    except Exception as e:
+        ctx.count('build_error', type(e).__name__)
+        raise
+    try:
+        nc = build_connector(objs, opts, on_step)
+    except AttributeError as e:
+        if no_node and 'node_id' in str(e):
+            ctx.count('expected_error', 'no node_id column -> AttributeError')
+            return
+        ctx.oracle(False, f'NeuronConnector(neurons) raises {type(e).__name__}: {str(e)[:150]}', case, signature=None)
+        return
     except Exception as e:
         ctx.oracle(False, f'NeuronConnector(neurons) raises {type(e).__name__}: {str(e)[:150]}', case,
                    signature=None)
         return
+    if no_node:
+        ctx.count('expected_error', 'no node_id column accepted')
+        return                       # tables without node ids are outside the model (navis raises today)
     names = []
     for n in neurons:
         if n['name'] not in names:
             names.append(n['name'])
+    ctx.oracle(len(nc) == len(names), f'len(NeuronConnector) = {len(nc)} but {len(names)} distinct neuron names were added', case)
     ctx.count('pre_unique', pu)
     ctx.count('n_neurons', len(neurons))
     ctx.count('n_rows', min(len(rows), 30) // 5 * 5)
@@ -152,14 +336,16 @@ def case_conn(ctx, case):
             ctx.count('impl_error', type(e).__name__)
             ctx.oracle(False, f'NeuronConnector view raises {type(e).__name__}: {str(e)[:150]} ({tag})', case)
             continue
+        es = [(e[0], str(e[1]), str(e[2]), e[3], e[4]) for e in es]
         edges_by_io[io] = es
         if io:
             ctx.count('edges_true', min(len(es), 40) // 5 * 5)
             ctx.count('other_src_edges', min(sum(1 for e in es if e[3] is None), 5))
             ctx.count('other_tgt_edges', min(sum(1 for e in es if e[4] is None), 5))
-            mult = Counter(es)
+            mult = Counter(edge_tok(e) for e in es)
             ctx.count('max_edge_multiplicity', max(mult.values()) if mult else 0)
-            ctx.count('max_pair_weight', min(max(Counter((e[1], e[2]) for e in es).values()) if es else 0, 6))
+            mpw = max(Counter((e[1], e[2]) for e in es).values()) if es else 0
+            ctx.count('max_pair_weight', mpw if mpw <= 6 else ('7-255' if mpw < 256 else '>=256'))
             ctx.count('id_class', 'none' if not rows else ('>2^62' if max(r[1] for r in rows) > 2 ** 62 else
                                                          ('has0' if min(r[1] for r in rows) == 0 else 'other')))
         model = parse_kv(ctx.ask(f'c20.all {1 if io else 0} | {payload}'))
@@ -168,26 +354,43 @@ def case_conn(ctx, case):
         impl_edges = sorted(edge_tok(e) for e in es)
         ctx.corr(impl_edges, slist(model['edges']), f'edges() multiset ({tag})', case)
         # ---------------- correspondence: adjacency (label -> label -> count, incl. zeros)
-        idx = list(adj.index)
-        cols = list(adj.columns)
+        idx = [str(x) for x in adj.index]
+        cols = [str(x) for x in adj.columns]
         impl_adj = sorted(f'{s}>{t}:{int(adj.values[i, j])}' for i, s in enumerate(idx) for j, t in enumerate(cols))
         midx = [t for t in model['index'].split(',') if t]
         mrows = [r.split(',') if r else [] for r in model['adj'].split('/')] if midx else []
         model_adj = sorted(f'{s}>{t}:{mrows[i][j]}' for i, s in enumerate(midx) for j, t in enumerate(midx))
         ctx.corr(impl_adj, model_adj, f'to_adjacency cells ({tag})', case)
         # ---------------- correspondence: digraph
-        impl_dg = sorted(f"{u}>{v}:{int(d['weight'])}:" + '+'.join(sorted(
-            f'{_n(r[0])}.{_n(r[1])}.{_n(r[2])}' for r in d['connectors'][['connector_id', 'pre_node', 'post_node']].values.tolist()))
-            for u, v, d in dg.edges(data=True))
+        dg_entries = []
+        for u, v, d in dg.edges(data=True):
+            tbl = d['connectors'][['connector_id', 'pre_node', 'post_node']].values.tolist()
+            dg_entries.append((str(u), str(v), int(d['weight']),
+                               [f'{_n(r[0])}.{_nd(r[1], u == OTHER)}.{_nd(r[2], v == OTHER)}' for r in tbl]))
+        impl_dg = sorted(f"{u}>{v}:{w}:" + '+'.join(sorted(t)) for u, v, w, t in dg_entries)
         model_dg = sorted(':'.join(t.split(':')[:2]) + ':' + '+'.join(sorted(x for x in t.split(':')[2].split('+') if x))
                           for t in model['dg'].split(',') if t)
         ctx.corr(impl_dg, model_dg, f'to_digraph edges/weights/connectors ({tag})', case)
         ctx.corr(sorted(map(str, dg.nodes)), sorted(midx), f'to_digraph node set ({tag})', case)
         # ---------------- correspondence: multigraph
-        impl_mg = sorted(f"{u}>{v}:{_n(d['connector_id'])}.{_n(d['pre_node'])}.{_n(d['post_node'])}"
-                         for u, v, d in mg.edges(data=True))
+        mg_entries = [(str(u), str(v), f"{_n(d['connector_id'])}.{_n(d['pre_node'])}.{_n(d['post_node'])}")
+                      for u, v, d in mg.edges(data=True)]
+        impl_mg = sorted(f'{u}>{v}:{t}' for u, v, t in mg_entries)
         ctx.corr(impl_mg, slist(model['mg']), f'to_multidigraph edges ({tag})', case)
         ctx.corr(sorted(map(str, mg.nodes)), sorted(midx), f'to_multidigraph node set ({tag})', case)
+
+        # ---------------- oracle 0: the Lean checker `viewsOKB` (Props/C20 `viewsOKB_sound`) on navis' own three objects
+        if idx == cols:
+            line = (f"c20.views {1 if io else 0} | {payload} | {','.join(edge_tok(e) for e in es)} | {','.join(idx)} | "
+                    + '/'.join(','.join(str(int(x)) for x in row) for row in adj.values.tolist())
+                    + f" | {','.join(map(str, dg.nodes))} | "
+                    + ','.join(f"{u}>{v}:{w}:" + '+'.join(t) for u, v, w, t in dg_entries)
+                    + f" | {','.join(map(str, mg.nodes))} | " + ','.join(f'{u}>{v}:{t}' for u, v, t in mg_entries))
+            chk = ctx.ask(line)
+            ctx.oracle(chk.startswith('ok=1'), f'Lean checker viewsOKB rejects navis\' adjacency matrix / digraph / multigraph '
+                                               f'for navis\' own edge list ({tag}): {chk}', case)
+        else:
+            ctx.oracle(False, f'adjacency rows {idx} and columns {cols} differ ({tag})', case)
 
         # ---------------- oracle 1: edge multiset == definition (guarded)
         if pu:
@@ -202,27 +405,27 @@ def case_conn(ctx, case):
         labels = set(idx)
         ok_idx = (idx == cols and set(map(str, dg.nodes)) == labels and set(map(str, mg.nodes)) == labels
                   and len(labels) == len(idx))
-        ctx.oracle(ok_idx, f'adjacency index {idx} / digraph nodes {sorted(dg.nodes)} / multigraph nodes '
-                           f'{sorted(mg.nodes)} differ ({tag})', case)
+        ctx.oracle(ok_idx, f'adjacency index {idx} / digraph nodes {sorted(map(str, dg.nodes))} / multigraph nodes '
+                           f'{sorted(map(str, mg.nodes))} differ ({tag})', case)
         ctx.oracle(labels == set(names) | ({OTHER} if io else set()),
                    f'node set {sorted(labels)} is not the neuron names plus __OTHER__ iff requested ({tag})', case)
         bad = []
-        mg_pairs = Counter((u, v) for u, v in mg.edges())
-        for i, s in enumerate(idx):
-            for j, t in enumerate(cols):
+        mg_pairs = Counter((u, v) for u, v, _ in mg_entries)
+        dg_w = {(u, v): w for u, v, w, _ in dg_entries}
+        for i, s_ in enumerate(idx):
+            for j, t_ in enumerate(cols):
                 a = int(adj.values[i, j])
-                w = int(dg[s][t]['weight']) if dg.has_edge(s, t) else 0
-                k = mg_pairs.get((s, t), 0)
-                if not (a == w == k == stream.get((s, t), 0)):
-                    bad.append((s, t, a, w, k, stream.get((s, t), 0)))
+                w = dg_w.get((s_, t_), 0)
+                k = mg_pairs.get((s_, t_), 0)
+                if not (a == w == k == stream.get((s_, t_), 0)):
+                    bad.append((s_, t_, a, w, k, stream.get((s_, t_), 0)))
         ctx.oracle(not bad, f'weights disagree (src, tgt, adjacency, digraph weight, #multigraph edges, #stream edges): '
                             f'{bad[:5]} ({tag})', case)
         ctx.oracle(int(adj.values.sum()) == len(es) if len(idx) else len(es) == 0,
                    f'adjacency total {int(adj.values.sum()) if len(idx) else 0} != number of edges {len(es)} ({tag})', case)
-        per_stream = Counter((e[1], e[2], _n(e[0]), _n(e[3]), _n(e[4])) for e in es)
-        per_mg = Counter((u, v, _n(d['connector_id']), _n(d['pre_node']), _n(d['post_node'])) for u, v, d in mg.edges(data=True))
-        per_dg = Counter((u, v, _n(r[0]), _n(r[1]), _n(r[2])) for u, v, d in dg.edges(data=True)
-                         for r in d['connectors'][['connector_id', 'pre_node', 'post_node']].values.tolist())
+        per_stream = Counter((e[1], e[2], f'{_n(e[0])}.{_n(e[3])}.{_n(e[4])}') for e in es)
+        per_mg = Counter(mg_entries)
+        per_dg = Counter((u, v, x) for u, v, _, t in dg_entries for x in t)
         ctx.oracle(per_stream == per_mg == per_dg,
                    f'per-edge (connector, pre node, post node) differ between stream / multigraph / digraph ({tag}): '
                    f'{sorted((per_stream - per_mg) + (per_mg - per_stream) + (per_dg - per_mg) + (per_mg - per_dg))[:5]}', case)
@@ -230,6 +433,25 @@ def case_conn(ctx, case):
         if not io:
             unk = [e for e in es if e[3] is None or e[4] is None or e[1] == OTHER or e[2] == OTHER]
             ctx.oracle(not unk, f'include_other=False yields edges with an unknown partner: {unk[:4]}', case)
+        # ---------------- fourth view: network2nx(adjacency, threshold)
+        if case.get('n2nx') is not None and idx == cols and len(set(idx)) == len(idx):
+            for th in case['n2nx']:
+                try:
+                    g = navis.network2nx(adj, threshold=th)
+                except Exception as e:
+                    ctx.count('impl_error', 'network2nx:' + type(e).__name__)
+                    ctx.oracle(False, f'network2nx(to_adjacency({tag}), threshold={th}) raises {type(e).__name__}: {str(e)[:120]}', case)
+                    continue
+                ctx.count('n2nx_threshold', th)
+                impl_g = sorted(f"{u}>{v}:{int(d['weight'])}" for u, v, d in g.edges(data=True))
+                m = parse_kv(ctx.ask(f"c20.n2nx {'N' if th is None else th} | {','.join(idx)} | "
+                                     + '/'.join(','.join(str(int(x)) for x in row) for row in adj.values.tolist())))
+                ctx.corr(impl_g, slist(m['edges']), f'network2nx(adjacency, threshold={th}) edges and weights ({tag})', case)
+                ctx.corr(sorted(map(str, g.nodes)), slist(m['nodes']), f'network2nx(adjacency, threshold={th}) nodes ({tag})', case)
+                want = sorted(f'{s_}>{t_}:{stream.get((s_, t_), 0)}' for s_ in idx for t_ in idx
+                              if th is None or stream.get((s_, t_), 0) >= th)
+                ctx.oracle(impl_g == want, f'network2nx(to_adjacency(), threshold={th}) is not the set of pairs with at least '
+                                           f'{th} synapses, weighted by their number ({tag}): got {impl_g[:6]}, expected {want[:6]}', case)
     if True in edges_by_io and False in edges_by_io:
         known = sorted(edge_tok(e) for e in edges_by_io[True] if e[3] is not None and e[4] is not None)
         ctx.oracle(known == sorted(edge_tok(e) for e in edges_by_io[False]),
@@ -238,6 +460,11 @@ def case_conn(ctx, case):
         ids_true = Counter(e[0] for e in edges_by_io[True])
         missing = [c for c in {r[1] for r in rows if r[3] in (0, 1)} if ids_true.get(c, 0) == 0]
         ctx.oracle(not missing, f'connector ids {missing[:5]} have rows of type 0/1 but no edge with include_other=True', case)
+        # a second round of views must not depend on the first (no state kept between calls / between include_other values)
+        if case.get('recheck'):
+            again = sorted(edge_tok((e[0], str(e[1]), str(e[2]), e[3], e[4])) for e in nc.edges(True))
+            ctx.oracle(again == sorted(edge_tok(e) for e in edges_by_io[True]),
+                       'edges(include_other=True) changed after the views were taken with include_other=False', case)
 
 
 # ---------------------------------------------------------------------------------------------
@@ -257,20 +484,36 @@ def groups_payload(g):
     return 'G:' + ','.join(f'{k}>' + '+'.join(str(m) for m in ms) for k, ms in g['items'])
 
 
-def groups_py(g, as_int):
+def groups_py(g, as_int, keymix=None, memb='list'):
+    """materialise a grouping; `as_int`: labels are ints (numpy frames / integer-labelled DataFrames) — with `keymix`
+    (a seed) each label is written as int or as str (both end up equal after navis' `str()`)."""
     if not g:
         return {}
-    conv = (lambda s: int(s)) if as_int else (lambda s: s)
+    def conv(x):
+        # the kind (int / str) is a function of the label, so one neuron is always written the same way
+        if as_int and x.isdigit() and (keymix is None or _random.Random(keymix * 1000003 + int(x)).random() < 0.5):
+            return int(x)
+        return x
     if g['fmt'] == 'N':
         return {conv(k): v for k, v in g['items']}
-    return {k: [conv(m) for m in ms] for k, ms in g['items']}
+    out = {}
+    for k, ms in g['items']:
+        ms = [conv(m) for m in ms]
+        if memb == 'tuple':
+            ms = tuple(ms)
+        elif memb == 'set' and len(set(map(str, ms))) == len(ms):
+            ms = set(ms)
+        elif memb == 'ndarray' and ms and all(isinstance(m, int) for m in ms):
+            ms = np.array(ms)
+        out[k] = ms
+    return out
 
 
 def case_group(ctx, case):
     rows, cols, data = case['rows'], case['cols'], case['data']
     method, drop, container = case['method'], case['drop'], case['container']
     vals = [[Fraction(x[0], x[1]) for x in r] for r in data]
-    as_int = container == 'ndarray'
+    as_int = container in ('ndarray', 'DataFrame_int')
     if container == 'ndarray':
         arr = np.array([[float(v) for v in r] for r in vals], dtype=float).reshape(len(rows), len(cols))
         if case.get('int_dtype'):
@@ -280,12 +523,19 @@ def case_group(ctx, case):
         arr = np.array([[float(v) for v in r] for r in vals], dtype=float).reshape(len(rows), len(cols))
         if case.get('int_dtype'):
             arr = arr.astype(np.uint64)
-        mat = pd.DataFrame(arr, index=list(rows), columns=list(cols))
+        if container == 'DataFrame_int':
+            mat = pd.DataFrame(arr, index=[int(x) for x in rows], columns=[int(x) for x in cols])
+        else:
+            mat = pd.DataFrame(arr, index=list(rows), columns=list(cols))
     before = mat.copy()
-    rg, cg = groups_py(case['rg'], as_int), groups_py(case['cg'], as_int)
+    km = case.get('keymix') if container == 'DataFrame_int' else None
+    rg = groups_py(case['rg'], as_int, km, case.get('memb', 'list'))
+    cg = groups_py(case['cg'], as_int, None if km is None else km + 1, case.get('memb', 'list'))
+    ctx.count('members_as', case.get('memb', 'list'))
     ctx.count('method', method); ctx.count('drop', drop); ctx.count('container', container)
     ctx.count('grouped_axes', ('r' if rg else '') + ('c' if cg else '') or 'none')
     ctx.count('formats', (case['rg'] or {}).get('fmt', '-') + (case['cg'] or {}).get('fmt', '-'))
+    ctx.count('group_stream', case.get('stream', '?'))
     try:
         res = group_matrix(mat, row_groups=rg, col_groups=cg, drop_ungrouped=drop, method=method)
     except Exception as e:
@@ -338,6 +588,15 @@ def case_group(ctx, case):
         got = sum(impl_cells.values(), Fraction(0))
         ctx.oracle(got == want, f'group_matrix(SUM, drop_ungrouped={drop}) does not conserve the total: grouped total '
                                 f'{got}, total of the {"kept sub-" if drop else ""}matrix {want}', case)
+        if not dup:
+            # the same clause decided by the Lean checker `groupTotalsOKB` (Props/C20 `groupTotalsOKB_sound`) on navis' own matrix
+            gl = (f"c20.gtotal {1 if drop else 0} | {','.join(rows)} | {','.join(cols)} | "
+                  + ';'.join(','.join(frac_tok(v) for v in r) for r in vals)
+                  + f" | {groups_payload(case['rg'])} | {groups_payload(case['cg'])} | {','.join(rlab)} | {','.join(clab)} | "
+                  + ';'.join(','.join(frac_tok(impl_cells[(r, c)]) for c in clab) for r in rlab))
+            chk = ctx.ask(gl)
+            ctx.oracle(chk.startswith('ok=1'), f'Lean checker groupTotalsOKB: group_matrix(SUM, drop_ungrouped={drop}) does not conserve '
+                                               f'the synapse total: {chk}', case)
         if rg and not cg and not dup:
             # per column marginals are conserved by a row grouping
             bad = [c for j, c in enumerate(cols)
@@ -425,6 +684,91 @@ def gen_network(r, big=False):
     return neurons
 
 
+PRE_TOKS = [0, 0, 'bF', 'f0', 'i0']
+POST_TOKS = [1, 1, 'bT', 'f1', 'i1']
+IGN_TOKS = ['spre', 'spost', 's0', 's1', 'nan', 'none', 'f1_2', 'f2', 'i7', 2, -1, 'sPre']
+
+
+def decorate(r, neurons):
+    """Turn a plain generated network into one that exercises the glue around the edge stream; returns (neurons, extras)
+    where extras are case-level keys (`opts`, `n2nx`, `recheck`)."""
+    opts = {}
+    # ---- type cells of other Python classes
+    mode = r.choice(['plain', 'plain', 'mixed', 'mixed', 'float', 'bool', 'str', 'object'])
+    for n in neurons:
+        if not n['conns']:
+            continue
+        if mode == 'mixed' or mode == 'object':
+            for row in n['conns']:
+                if r.random() < 0.6:
+                    row[2] = r.choice(PRE_TOKS) if row[2] == 0 else r.choice(POST_TOKS) if row[2] == 1 else r.choice(IGN_TOKS)
+        elif mode == 'float':
+            for row in n['conns']:
+                row[2] = 'f0' if row[2] == 0 else 'f1' if row[2] == 1 else r.choice(['f2', 'nan', 'f1_2'])
+        elif mode == 'bool' and all(row[2] in (0, 1) for row in n['conns']):
+            for row in n['conns']:
+                row[2] = 'bT' if row[2] == 1 else 'bF'
+        elif mode == 'str':
+            for row in n['conns']:               # navis' own 'pre' / 'post' convention: ignored by NeuronConnector
+                row[2] = r.choice(['spre', 's0']) if row[2] == 0 else r.choice(['spost', 's1']) if row[2] == 1 else 'sgap'
+    if mode == 'object':
+        opts['type_object'] = True
+    if mode == 'plain' and r.random() < 0.3:
+        opts['type_dtype'] = r.choice(['uint64', 'int8', 'uint8', 'int32'])
+        for n in neurons:
+            for row in n['conns'] or []:
+                if isinstance(row[2], int) and row[2] < 0 and opts['type_dtype'].startswith('u'):
+                    row[2] = 3
+    # ---- missing node ids
+    if r.random() < 0.12:
+        for n in neurons:
+            for row in n['conns'] or []:
+                if r.random() < 0.3:
+                    row[1] = None
+    # ---- names: ints (unnamed neurons — name None — are outside the domain: networkx refuses None as a node)
+    if any(n['name'].isdigit() for n in neurons) and r.random() < 0.7:
+        opts['int_names'] = True
+    # ---- carriers
+    for n in neurons:
+        if r.random() < 0.15:
+            n['ntype'] = r.choice(['mesh', 'dotprops'])
+    # ---- connector-id dtype per neuron, table layout
+    big = max((row[0] for n in neurons for row in n['conns'] or []), default=0)
+    for n in neurons:
+        if r.random() < 0.3:
+            dt = r.choice(['uint64', 'object', 'float64', 'int32'])
+            if (dt == 'float64' and big >= 2 ** 53) or (dt == 'int32' and big >= 2 ** 31):
+                dt = 'uint64'
+            n['nopts'] = dict(n.get('nopts') or {}, cid_dtype=dt)
+        if r.random() < 0.12 and n.get('ntype', 'tree') == 'tree':     # only TreeNeuron renames aliased columns
+            n['nopts'] = dict(n.get('nopts') or {}, aliases={k: r.choice(v) for k, v in ALIASES.items()})
+    for k, pr in (('extra_cols', 0.2), ('shuffle_cols', 0.2), ('odd_index', 0.2), ('dup_ids', 0.1), ('same_object_twice', 0.05)):
+        if r.random() < pr:
+            opts[k] = True
+    if r.random() < 0.03:                 # a mesh / dotprops carrier whose table has no node_id column at all
+        n = r.choice(neurons) if neurons else None
+        if n is not None:
+            n['ntype'] = r.choice(['mesh', 'dotprops'])
+            n['nopts'] = dict({k: v for k, v in (n.get('nopts') or {}).items() if k != 'aliases'}, no_node_id=True)
+    opts['container'] = r.choice(['list', 'list', 'tuple', 'generator', 'neuronlist', 'batches', 'incremental'])
+    if opts['container'] == 'batches':
+        opts['split'] = r.randint(0, len(neurons))
+    extras = {'opts': opts}
+    if r.random() < 0.35:
+        extras['n2nx'] = [None, r.choice([0, 1, 1, 2, 3])]
+    if r.random() < 0.3:
+        extras['recheck'] = True
+    return neurons, extras
+
+
+def heavy_network(r, k):
+    """`k` synapses between one pair (cell width), plus one connector contacting the same target `k` times."""
+    a = [[c, r.randint(0, N_NODES), 0] for c in range(1, k + 1)] + [[k + 1, 1, 0]]
+    b = [[c, r.randint(0, N_NODES), 1] for c in range(1, k + 1)]
+    c_ = [[k + 1, 2, 1] for _ in range(k)]
+    return [{'name': 'A', 'conns': a}, {'name': 'B', 'conns': b}, {'name': 'C', 'conns': c_}]
+
+
 def exhaustive_networks(max_rows):
     """All row sequences of length ≤ max_rows over 2 neurons × connector ids {1,2} × types {0,1}, split over
     the two neurons in order (neuron X's rows first)."""
@@ -464,10 +808,15 @@ def gen_groups(r, labels):
 
 
 def gen_group_case(r, net=None):
-    container = r.choice(['DataFrame', 'DataFrame', 'DataFrame', 'ndarray'])
+    container = r.choice(['DataFrame', 'DataFrame', 'DataFrame', 'ndarray', 'DataFrame_int'])
     if net is not None:
         container = 'DataFrame'
-    if container == 'ndarray':
+    if container == 'DataFrame_int':
+        nr, ncol = r.randint(1, 6), r.randint(1, 6)
+        ids = r.sample([0, 1, 2, 3, 5, 7, 11, 42, 1000, 123456789], 6)
+        rows = [str(i) for i in ids[:nr]]
+        cols = rows if (r.random() < 0.5 and nr == ncol) else [str(i) for i in r.sample(ids, ncol)]
+    elif container == 'ndarray':
         nr, ncol = r.randint(1, 6), r.randint(1, 6)
         rows = [str(i) for i in range(nr)]
         cols = [str(i) for i in range(ncol)]
@@ -486,8 +835,8 @@ def gen_group_case(r, net=None):
         data = [[[r.randint(-64, 64), r.choice([1, 2, 4, 8])] for _ in cols] for _ in rows]
     rg = gen_groups(r, rows)
     cg = gen_groups(r, cols)
-    if container == 'ndarray':
-        # numeric keys only (indices); group names stay strings
+    if container in ('ndarray', 'DataFrame_int'):
+        # numeric keys only (indices / integer ids); group names stay strings
         for g in (rg, cg):
             if g:
                 if g['fmt'] == 'N':
@@ -495,12 +844,13 @@ def gen_group_case(r, net=None):
                 else:
                     g['items'] = [[k, [m for m in ms if m.isdigit()]] for k, ms in g['items']]
     return dict(rows=rows, cols=cols, data=data, int_dtype=int_dtype, container=container, rg=rg, cg=cg,
-                method=r.choice(['SUM', 'SUM', 'AVERAGE', 'MIN', 'MAX']), drop=r.random() < 0.4)
+                method=r.choice(['SUM', 'SUM', 'AVERAGE', 'MIN', 'MAX']), drop=r.random() < 0.4,
+                keymix=r.randrange(10 ** 6), memb=r.choice(['list', 'list', 'tuple', 'set', 'ndarray']))
 
 
 def adjacency_of(neurons, io):
     """adjacency matrix of a generated network via navis (input for the group_matrix stream)."""
-    objs = [make_neuron(n['name'], n['conns'], i) for i, n in enumerate(neurons)]
+    objs = [make_neuron(n, i, {}) for i, n in enumerate(neurons)]
     adj = NeuronConnector(objs).to_adjacency(io)
     return [str(x) for x in adj.index], adj.values.tolist()
 
@@ -514,13 +864,22 @@ def gen_cases(ctx):
     for neurons in ex:
         yield 'conn', {'neurons': neurons, 'stream': 'exhaustive'}
     for i in range(ctx.budget(220, 2500)):
-        yield 'conn', {'neurons': gen_network(r, big=(i % 25 == 24)), 'stream': 'random'}
+        neurons = gen_network(r, big=(i % 25 == 24))
+        if i % 2:
+            neurons, extras = decorate(r, neurons)
+            yield 'conn', dict({'neurons': neurons, 'stream': 'decorated'}, **extras)
+        else:
+            yield 'conn', {'neurons': neurons, 'stream': 'random'}
+    for i in range(ctx.budget(12, 150)):
+        neurons = gen_network(r)
+        yield 'conn', {'neurons': neurons, 'stream': 'incremental', 'recheck': True,
+                       'opts': {'container': 'incremental', 'same_object_twice': i % 4 == 3}}
+    for i in range(ctx.budget(1, 4)):
+        yield 'conn', {'neurons': heavy_network(r, r.choice([256, 257, 300]) if i == 0 else r.randint(64, 520)),
+                       'stream': 'heavy', 'n2nx': [None, 256]}
     nets = []
     for _ in range(ctx.budget(30, 300)):
-        try:
-            nets.append(adjacency_of(gen_network(r), r.random() < 0.6))
-        except Exception:
-            pass
+        nets.append(adjacency_of(gen_network(r), r.random() < 0.6))
     for net in nets:
         if net[0] and all(l.replace('_', '').isalnum() for l in net[0]) and len(set(net[0])) == len(net[0]):
             yield 'group', dict(gen_group_case(r, net), stream='adjacency')
@@ -534,24 +893,33 @@ RUNNERS = {'conn': case_conn, 'group': case_group}
 def nontrivial(kind, case):
     if kind == 'conn':
         rows = flat_rows(case['neurons'])
-        return any(t == 0 for *_, t in rows) or any(t == 1 for *_, t in rows)
+        return any(t in (0, 1) for *_, t in rows)
     return bool(case['rg'] and case['rg']['items']) or bool(case['cg'] and case['cg']['items'])
 
 
 def run(ctx):
-    ctx.extra['rule'] = ('conn cases: materialised list of neurons (name, connector rows (connector_id, node_id, type) or None); '
-                         'exhaustive stream = all row sequences ≤2 (quick) / ≤3 (thorough) over 2 neurons × 2 connector ids × '
-                         '{pre, post}; random stream = structured tables (shared / polyadic / pre-only / post-only / autapse / '
-                         'ignored types / duplicated rows / second presynaptic row / duplicate neuron names / connectors=None, '
-                         'id classes small, sparse, >2^62, 0); non-trivial when at least one row has type 0 or 1. '
-                         'group cases: labelled matrix (random or a generated adjacency), method, drop_ungrouped, row/col '
-                         'groupings in both dict formats; non-trivial when at least one grouping is non-empty. '
-                         'distinct = distinct JSON digest')
+    ctx.extra['rule'] = ('conn cases: materialised list of neurons (name, carrier type, connector rows (connector_id, node_id | NaN, type token) '
+                         'or None, per-neuron table options) plus case options (container / construction history, table layout, '
+                         'network2nx thresholds); exhaustive stream = all row sequences ≤2 (quick) / ≤3 (thorough) over 2 neurons × 2 '
+                         'connector ids × {pre, post}; random stream = structured tables (shared / polyadic / pre-only / post-only / '
+                         'autapse / ignored types / duplicated rows / second presynaptic row / duplicate neuron names / connectors=None, '
+                         'id classes small, sparse, >2^62, 0); decorated stream = the same with type cells of every Python class, NaN '
+                         'node ids, int names, MeshNeuron / Dotprops carriers, connector-id dtypes per neuron, aliased / extra / shuffled '
+                         'columns, odd index, duplicate neuron ids, list / tuple / generator / NeuronList / two batches / add_neuron one by '
+                         'one (stream compared after every step), the same object added twice; heavy stream = ≥256 synapses between one '
+                         'pair and one connector contacting one target ≥256 times; non-trivial when at least one row has type code 0 or 1. '
+                         'group cases: labelled matrix (random, integer-labelled, numpy, or a generated adjacency), method, drop_ungrouped, '
+                         'row/col groupings in both dict formats (members as list / tuple / set / ndarray, keys int or str); non-trivial '
+                         'when at least one grouping is non-empty. distinct = distinct JSON digest')
     ctx.extra['assumptions'] = [
-        'neuron names are [A-Za-z0-9_]+ and none is literally "__OTHER__"; connector/node ids are non-negative ints < 2^63',
-        'matrix labels stay distinct after str(); dict keys of a grouping stay distinct after str()',
+        'neuron names are str / int whose str() is [A-Za-z0-9_]+, distinct as str, none is literally "__OTHER__" and every neuron has a '
+        'name (networkx refuses None as a node: unnamed neurons make to_digraph / to_multidigraph raise); connector ids are '
+        'non-negative ints < 2^63 (any integer / float / object dtype), node ids non-negative ints or NaN',
+        'connector tables carry a node_id column (MeshNeuron / Dotprops tables without one make add_neuron raise AttributeError: counted, not judged)',
+        'matrix labels stay distinct after str(); one neuron is written the same way (int or str) wherever it occurs in a grouping',
         'edge order (Python set iteration), DataFrame index order and pandas group label order are not observables: '
         'everything is compared as sorted multisets / label-keyed cells',
+        'the digraph\'s connectors table turns None and NaN node ids into <NA>; they are told apart by whether that end of the edge is __OTHER__',
         'AVERAGE cells are compared with relative tolerance 1e-11 against the exact rational of the model; all other methods exactly',
     ]
     for kind, case in gen_cases(ctx):
